@@ -8,11 +8,12 @@ R10.2 non-negativity and well-definedness on the input box (interval domain).
 
 from __future__ import annotations
 
-from typing import Any, Dict, List, Set
+from typing import Any, Dict, List, Optional, Set
 
 from ..ai.values import Num, short
 from ..ai.world import Box
 from ..frontend import Program, norm_text
+from ..poly import to_poly
 from ..report import Instance, Report
 from .harness import parallel_map, run_op, valeq_instances, where
 
@@ -77,11 +78,71 @@ def symmetric_problems(sym, bound: Set[str], out: List[str], depth: int = 0) -> 
         symmetric_problems(sym[3], bound | {var}, out, depth + 1)
         return
     if k in ("rd", "elem", "len"):
-        out.append(f"a value read from mutable/heap state that is not a fold ({k} {sym[1]})")
+        out.append(f"?a value read from a list or object whose content is not expressed as a term ({k} {sym[1]})")
         return
     for a in sym[1:]:
         if isinstance(a, tuple):
             symmetric_problems(a, bound, out, depth + 1)
+
+
+def _swap_team_consts(sym, i: int, j: int, depth: int = 0):
+    """The term with the teams at the constant positions i and j exchanged (team slot of player atoms and of team sizes only)."""
+    if not isinstance(sym, tuple) or not sym or depth > 90:
+        return sym
+
+    def sw(t):
+        return ("c", j) if t == ("c", i) else ("c", i) if t == ("c", j) else t
+
+    if sym[0] == "in" and sym[1] == "IN.player" and len(sym[3]) == 2:
+        return ("in", sym[1], sym[2], (sw(sym[3][0]), sym[3][1]))
+    if sym[0] == "len" and sym[1] == "IN.team" and len(sym[2]) == 1:
+        return ("len", sym[1], (sw(sym[2][0]),))
+    if sym[0] in ("const", "param"):
+        return sym
+    return tuple(_swap_team_consts(a, i, j, depth + 1) if isinstance(a, tuple) else a for a in sym)
+
+
+def _const_team_heads(sym, out: Set, depth: int = 0, bound=frozenset()) -> None:
+    """Team positions a term mentions, except the variables bound by an enclosing fold (those range over all teams)."""
+    if not isinstance(sym, tuple) or not sym or depth > 90:
+        return
+
+    def add(h):
+        if not (h[0] == "v" and h[1] in bound):
+            out.add(h)
+
+    if sym[0] == "in" and sym[1] == "IN.player" and len(sym[3]) == 2:
+        add(sym[3][0])
+        return
+    if sym[0] == "len" and sym[1] == "IN.team" and len(sym[2]) == 1:
+        add(sym[2][0])
+        return
+    if sym[0] in ("const", "param"):
+        return
+    if sym[0] == "fold" and len(sym) >= 5 and isinstance(sym[2], tuple) and sym[2][0] == "const":
+        bound = bound | {sym[2][1]}
+    for a in sym:
+        if isinstance(a, tuple):
+            _const_team_heads(a, out, depth + 1, bound)
+
+
+def invariant_under_team_swaps(sym, n: int) -> Optional[bool]:
+    """For an exact number n of teams spelled out at constant positions 0..n-1: is the term's normal form unchanged by every
+    adjacent transposition of the teams (these generate all permutations)? None when the term is not of that shape."""
+    heads: Set = set()
+    _const_team_heads(sym, heads)
+    if not heads or any(h[0] != "c" for h in heads) or {h[1] for h in heads} != set(range(n)):
+        return None
+    base = to_poly(sym)
+    if base is None:
+        return None
+    for i in range(n - 1):
+        sw = to_poly(_swap_team_consts(sym, i, i + 1))
+        if sw is None:
+            return None
+        if sw != base:
+            return False
+    return True
 
 
 def _s(i) -> str:
@@ -136,8 +197,15 @@ def _job(job) -> List[Dict[str, Any]]:
         probs: List[str] = []
         symmetric_problems(res.sym, set(), probs)
         probs = sorted(set(probs))
+        if probs and n[0] == n[1]:
+            # an exact number of teams written out position by position (e.g. unrolled index loops): decide the symmetry itself
+            inv = invariant_under_team_swaps(res.sym, n[0])
+            if inv is True:
+                probs = []
         # name constant-position subscripts of teams for the diagnosis
-        inst("R10.1", "VIOLATED" if probs else "HOLDS", f"symmetric by construction ({case})",
+        unknown_only = bool(probs) and all(p.startswith("?") for p in probs)
+        probs = [p.lstrip("?") for p in probs]
+        inst("R10.1", ("UNDECIDED" if unknown_only else "VIOLATED") if probs else "HOLDS", f"symmetric by construction ({case})",
              ("the draw probability depends on " + "; ".join(probs[:4]) + " — it is not a function of the multiset of teams") if probs else "",
              {"term_size": _size(res.sym)})
     # ---- R10.2
